@@ -1,4 +1,4 @@
-use model::data::{Component, U32, U16, Trame, to_vec, Message, DataType, DynOption, MessageOption, Check, Array};
+use model::data::{Component, U32, U16, Trame, to_vec, Message, DataType, DynOption, MessageOption, Array};
 use model::error::{RdpResult, RdpError, RdpErrorKind, Error};
 use core::per;
 use std::io::{Cursor, Read};
@@ -295,7 +295,7 @@ pub fn client_network_data(channel_def_array: Trame) -> Component {
 
 pub fn server_network_data() -> Component {
     component![
-        "MCSChannelId" => Check::new(U16::LE(1003)),
+        "MCSChannelId" => U16::LE(0),
         "channelCount" => DynOption::new(U16::LE(0), |count| MessageOption::Size("channelIdArray".to_string(), count.inner() as usize * 2)),
         "channelIdArray" => Array::new(|| U16::LE(0))
     ]
@@ -325,6 +325,8 @@ pub fn write_conference_create_request(user_data: &[u8]) ->RdpResult<Vec<u8>> {
 }
 
 pub struct ServerData {
+    /// MCS channel id of the I/O (global) channel, chosen by the server
+    pub global_channel_id: u16,
     pub channel_ids: Vec<u16>,
     pub rdp_version : Version
 }
@@ -382,6 +384,7 @@ pub fn read_conference_create_response(cc_response: &mut dyn Read) -> RdpResult<
     let server_net = result.get(&MessageType::ScNet).ok_or(Error::RdpError(RdpError::new(RdpErrorKind::InvalidData, "GCC: server network data block is missing")))?;
     let server_core = result.get(&MessageType::ScCore).ok_or(Error::RdpError(RdpError::new(RdpErrorKind::InvalidData, "GCC: server core data block is missing")))?;
     Ok(ServerData{
+        global_channel_id: cast!(DataType::U16, server_net["MCSChannelId"])?,
         channel_ids: cast!(DataType::Trame, server_net["channelIdArray"])?.into_iter().map(|x| cast!(DataType::U16, x).unwrap()).collect(),
         rdp_version: Version::from(cast!(DataType::U32, server_core["rdpVersion"])?)
     })
